@@ -157,7 +157,7 @@ def run(rep, tier):
     rep.assumptions += ['the bisimulation premises of fold_loop_correct (equal tracked state => equal future outputs) are not proved '
                         'for the three engines; the engines are tied by comparison with their own unrolled execution']
     rng = rep.rng()
-    N = 400 if quick else 12000
+    N = 5000 if quick else 30000
     folded = 0
     for k in range(N):
         if sum(1 for v in rep.violations if v['class'] == 'crash') >= 6:
